@@ -50,7 +50,8 @@ fn kw_tok(t: StepType) -> &'static str {
     }
 }
 
-pub fn gen_find(rng: &mut Rng) -> Case {
+pub fn gen_find(rng: &mut Rng, idx: usize) -> Case {
+    let _ = idx;
     let kws = [StepType::Given, StepType::When, StepType::Then];
     let nreg = rng.below(9);
     // few distinct regexes per case so that duplicates / ambiguity are common
